@@ -371,11 +371,17 @@ class ProcessTaskEvent(Unit):
 WFACTS = ["A", "SG", "PD", "RS", "UB"]
 
 
-def pwe_links(v):
-    """INV-ST on the pre-state: a resting workflow has no active task (no reporting task here)."""
+def pwe_links(v, paused_may_be_active=False):
+    """INV-ST on the pre-state: a resting workflow has no active task (no reporting task here).
+
+    A *paused* workflow can have an active task: a task offered just before the pause may still report
+    requested/scheduled/delayed, which the paused row ignores.  The completion-on-resume clauses are
+    therefore also proved without that conjunct (paused_may_be_active=True)."""
+    resting = [st.CANCELED, st.SUCCEEDED, st.UNSET, st.REQUESTED, st.SCHEDULED, st.DELAYED]
+    if not paused_may_be_active:
+        resting = [st.PAUSED] + resting
     return AND(
-        IMPLIES(IN(v["old"], [st.PAUSED, st.CANCELED, st.SUCCEEDED, st.UNSET, st.REQUESTED,
-                               st.SCHEDULED, st.DELAYED]), NOT(v["A"])),
+        IMPLIES(IN(v["old"], resting), NOT(v["A"])),
         IMPLIES(IN(v["old"], [st.PAUSING, st.CANCELING]), v["A"]),
         IMPLIES(EQ(v["old"], st.SUCCEEDED), NOT(v["SG"])),
         IMPLIES(v["SG"], v["RS"]),
@@ -480,7 +486,7 @@ def w_change_is_requested(v):
 
 
 PWE_OBLIGATIONS = {
-    "C02.pwe.succeeded_justified": (["C02", "C03"], w02_succeeded_justified,
+    "C02.pwe.succeeded_justified": (["C02", "C03", "C01"], w02_succeeded_justified,
         "a status request yields succeeded only as completion-on-resume of a finished paused workflow"),
     "C02.pwe.paused_canceled_dormant": (["C02", "C09", "C10"], w02_paused_canceled_dormant,
         "a request yields paused/canceled only with no active task"),
@@ -492,7 +498,7 @@ PWE_OBLIGATIONS = {
         "process_workflow_event raises nothing for any valid status request"),
     "C02.pwe.change_is_requested": (["C02", "C04"], w_change_is_requested,
         "a request changes the status only to the requested status or its lifecycle-prescribed variant"),
-    "C03.pwe.resume_completed": (["C03", "C09", "C07"], w03_resume_completed,
+    "C03.pwe.resume_completed": (["C03", "C09", "C07", "C01"], w03_resume_completed,
         "resume of a finished paused workflow completes it (failed with one UnreachableJoinError per barrier if a partially satisfied join can no longer run); otherwise the requested running status"),
     "C04.pwe.terminal_rows": (["C04"], w04_terminal_rows,
         "failed/canceled are final; succeeded changes only to failed on an explicit failed request"),
@@ -523,10 +529,11 @@ class ProcessWorkflowEvent(Unit):
     trusted = ["z3 5.1", "pyvc interpreter (cross-checked against CPython on every path in this unit)"]
 
     def splits(self, tier):
-        return [(o, r) for o in wf_statuses() for r in st.ALL_STATUSES]
+        return [(o, r, False) for o in wf_statuses() for r in st.ALL_STATUSES] + \
+               [(st.PAUSED, r, True) for r in (st.RUNNING, st.RESUMING)]
 
     def run_split(self, ctx, split):
-        old_c, req_c = split
+        old_c, req_c, relaxed = split
         first = [True]
 
         def thunk(e):
@@ -535,7 +542,7 @@ class ProcessWorkflowEvent(Unit):
             F = {k: e.register_input(k, S.mk_bool(k)) for k in WFACTS}
             v = {"old": old, "req": req}
             v.update(F)
-            e.assume(pwe_links(v))
+            e.assume(pwe_links(v, paused_may_be_active=relaxed))
             def raw_staged(eng, obj=None):
                 return [{"id": "staged_task", "route": 0, "ready": F["SG"]}] if eng.branch(F["RS"].z) else []
 
@@ -565,7 +572,10 @@ class ProcessWorkflowEvent(Unit):
                 ctx.canary()
                 first[0] = False
             for name, (props, fn, text) in PWE_OBLIGATIONS.items():
-                ctx.oblige(name, fn(v), v, info={"old": old_c, "req": req_c})
+                if relaxed and name not in ("C02.pwe.succeeded_justified", "C03.pwe.resume_completed",
+                                            "C02.pwe.no_internal_error"):
+                    continue
+                ctx.oblige(name, fn(v), v, info={"old": old_c, "req": req_c, "paused_may_be_active": relaxed})
             ctx.crosscheck({"new": v["new"], "raised": raised.cls.__name__ if raised else None, "n_logged": len(log)},
                            rate=1.0 if ctx.tier == "thorough" else 0.5)
 
